@@ -49,6 +49,10 @@ func (q *Query) Obj(in map[string]interface{}, l []interface{}, ins []interface{
 	return q.r("obj", map[string]interface{}{"in": in, "l": l, "ins": ins, "ll": ll})
 }
 
+func (q *Query) Ids(v []interface{}, w string) (interface{}, error) {
+	return q.r("ids", map[string]interface{}{"v": v, "w": w})
+}
+
 type Mutation struct {
 	B  Backend
 	ID string
